@@ -967,3 +967,28 @@ M('c07_reader_rejects_bare_count', ['C07'], ['C07-R5'], 'a datagram ending right
   (LIB, 'if remaining == 1 || (header.message == Message::Announce && remaining > 0) {', 'if remaining <= 2 && remaining > 0 || (header.message == Message::Announce && remaining > 0) {'))
 M('c07_custom_min_size_raised', ['C07'], ['C07-R5'], 'one-byte custom items are rejected by the reader',
   (LIB, 'if !data.is_empty() && data.len() < 3 {', 'if !data.is_empty() && data.len() < 4 {'))
+
+# ---------------------------------------------------------------- helper bodies
+M('h_is_active_ignores_state', ['C12', 'C19'], ['C12-R0'], 'Members::is_active(id) answers true for Down records too',
+  (MEMBER, '            .any(|member| &member.id == id && member.is_active())', '            .any(|member| &member.id == id)'))
+M('h_iter_active_includes_down', ['C08'], ['C08-R0'], 'iter_members() also lists Down records',
+  (MEMBER, '        self.inner.iter().filter(|m| m.is_active())', '        self.inner.iter().filter(|m| m.is_active() || m.incarnation == u16::MAX)'))
+M('h_is_probing_any', ['C12', 'C13'], ['C12-R0'], 'is_probing() true for any identity while a probe is open',
+  (PROBE, '        self.direct.as_ref().is_some_and(|probed| probed.id() == id)', '        self.direct.as_ref().is_some_and(|_probed| true)'))
+M('h_backlog_counts_flop', ['C16', 'C15'], ['C16-R0'], 'backlog length read from the scratch heap',
+  (BROADCAST, '    pub(crate) fn len(&self) -> usize {\n        self.flip.len()', '    pub(crate) fn len(&self) -> usize {\n        self.flop.len()'))
+M('h_reservoir_ignores_picker_on_replace', ['C19', 'C12', 'C07'], ['C19-R0'], 'reservoir replacement happens before the picker is consulted',
+  (MEMBER, '''        for member in &self.inner {
+            if !picker(member) {
+                continue;
+            }
+
+            num_seen += 1;
+            if num_chosen < wanted {''', '''        for member in &self.inner {
+            num_seen += 1;
+            if !picker(member) && num_chosen < wanted {
+                continue;
+            }
+            if num_chosen < wanted {'''))
+M('h_serialize_other_member', ['C10', 'C15'], ['C10-R0'], 'serialize_member encodes a default-incarnation copy',
+  (LIB, '            .encode_member(&member, &mut buf)\n            .map_err(|e| Error::Encode(Box::new(e)))?;\n\n        Ok(buf)', '            .encode_member(&Member::new(member.id().clone(), 0, member.state()), &mut buf)\n            .map_err(|e| Error::Encode(Box::new(e)))?;\n\n        Ok(buf)'))
